@@ -134,6 +134,9 @@ def to_json(doc, rng, pretty=False):
     sep_comma = rng.choice([",", ", "]) if not pretty else ","
     # every fourth JSON text spells non-ASCII characters as \uXXXX escapes (characters outside the BMP become surrogate pairs), like json.dumps does by default
     asc = rng.random() < 0.25
+    # every fifth JSON text repeats some keys: a shadowed `"k": <other scalar>` member stands before the real one (the last occurrence is
+    # the one every JSON reader here keeps - json.loads, serde_json and the YAML loader of validate)
+    dup = 0.15 if rng.random() < 0.2 else 0.0
 
     def nl(depth):
         if pretty:
@@ -148,6 +151,9 @@ def to_json(doc, rng, pretty=False):
             for i, (k, x) in enumerate(v.items()):
                 if i:
                     wr.w(sep_comma)
+                if dup and rng.random() < dup:
+                    nl(depth + 1)
+                    wr.w(json.dumps(k, ensure_ascii=asc) + sep_colon + rng.choice(['"shadowed"', "424242", "null", '{"shadowed":[1]}', "[]"]) + sep_comma)
                 nl(depth + 1)
                 wr.w(json.dumps(k, ensure_ascii=asc) + sep_colon)
                 emit(x, path + (k,), depth + 1)
